@@ -20,6 +20,81 @@ def models(chk, thorough):
         raise vt.MachineryError("non-vacuity: the as-coded alternative 'skip second collective' did not deadlock:\n" + res.tail())
 
 
+def merge_ranks(paths):
+    """merge per-rank logs of a real MPI execution into one trace: per rank order is kept, and no rank leaves a
+    collective before every rank has entered it (a total order every correct MPI execution has)"""
+    per = [vt.read_ndjson(p) for p in paths]
+    # split each rank's log into runs
+    def runs(rows):
+        out, cur = [], None
+        for r in rows:
+            if r["e"] == "MRun":
+                cur = [r]
+                out.append(cur)
+            elif cur is not None:
+                cur.append(r)
+        return out
+    rr = [runs(p) for p in per]
+    merged = []
+    for k in range(len(rr[0])):
+        blocks = [r[k] for r in rr]
+        head = [e for e in blocks[0] if e["e"] in ("MRun", "SerialIter", "SerialFinal")]
+        merged += head
+        bodies = [[e for e in b if e["e"] not in ("MRun", "SerialIter", "SerialFinal", "MEnd")] for b in blocks]
+        pos = [0] * len(bodies)
+        while True:
+            progressed = False
+            # every rank up to and including its next Enter
+            for r, b in enumerate(bodies):
+                while pos[r] < len(b):
+                    e = b[pos[r]]
+                    if e["e"] == "Leave":
+                        break
+                    merged.append(e)
+                    pos[r] += 1
+                    progressed = True
+                    if e["e"] == "Enter":
+                        break
+            # then every rank's Leave
+            for r, b in enumerate(bodies):
+                if pos[r] < len(b) and b[pos[r]]["e"] == "Leave":
+                    merged.append(b[pos[r]])
+                    pos[r] += 1
+                    progressed = True
+            if not progressed:
+                break
+        merged.append({"e": "MEnd", "ok": 1 if all(any(e["e"] == "MEnd" for e in b) for b in blocks) else 0})
+    return merged
+
+
+def real_mpi(chk):
+    """thorough tier: the same driver under real Open MPI"""
+    import shutil
+    import subprocess
+    exe = vt.build("drv_c04_mpi", ["drv_c04.cpp"], flags=["-O0", "-DVT_REAL_MPI"], cxx="mpicxx")
+    work = chk.path("mpi")
+    os.makedirs(work, exist_ok=True)
+    total = []
+    for np_ in (1, 2, 3, 5):
+        base = os.path.join(work, "t%d.ndjson" % np_)
+        r = subprocess.run(["mpirun", "--allow-run-as-root", "--oversubscribe", "-np", str(np_), exe, base, str(chk.seed + np_), "0"],
+                           stdout=subprocess.PIPE, stderr=subprocess.STDOUT, text=True, timeout=900)
+        if r.returncode != 0:
+            raise vt.MachineryError("mpirun -np %d failed:\n%s" % (np_, r.stdout[-2000:]))
+        total += merge_ranks([base + ".%d" % k for k in range(np_)])
+    trace = chk.path("trace_mpirun.ndjson")
+    vt.write_ndjson(trace, total)
+    shutil.rmtree(work, ignore_errors=True)
+    rows = total
+    ok, matched, res = chk.validate("Trace_C04", trace, need_actions=("MRun", "Eval", "Enter", "Leave", "Add", "Returned"), timeout=1200,
+                                    what="trace: real Open MPI, np in {1,2,3,5}")
+    chk.cov["real_mpi_runs"] = sum(1 for r in rows if r["e"] == "MRun")
+    if not ok:
+        bad = rows[matched] if matched < len(rows) else None
+        ctx = [r for r in rows[:matched + 1] if r["e"] == "MRun"][-1:]
+        chk.violation("C04:mpirun", trace, "real MPI: event %d rejected by Trace_C04: %s in run %s" % (matched + 1, str(bad)[:300], str(ctx)[:400]))
+
+
 def run(chk, replay=None):
     thorough = chk.tier == "thorough"
     chk.cov["checker_cmd"] = "tlc MC_Mpi (8-12 configurations, deadlock check on); tlc Trace_C04 (TRACE=out/C04/trace.ndjson)"
@@ -49,6 +124,7 @@ def run(chk, replay=None):
         ctx = [r for r in rows[:matched + 1] if r["e"] == "MRun"][-1:]
         chk.violation("C04:mpi", trace, "event %d rejected by Trace_C04: %s in run %s" % (matched + 1, str(bad)[:300], str(ctx)[:400]))
     if thorough and ok and not replay:
+        real_mpi(chk)
         bad = [dict(r) for r in rows]
         i = next(k for k, e in enumerate(bad) if e["e"] == "Eval" and e["rank"] == 1 and e["pos"] >= 0)
         bad[i]["pos"] += 1
